@@ -220,6 +220,13 @@ impl<const CAP: usize> octseq::builder::OctetsBuilder for FixedBuf<CAP> {
         if slice.len() > CAP - self.len {
             return Err(octseq::builder::ShortBuf);
         }
+        if slice.len() > 8 {
+            // long slices: one memcpy instead of a long unwound loop
+            let end = self.len + slice.len();
+            self.data[self.len..end].copy_from_slice(slice);
+            self.len = end;
+            return Ok(());
+        }
         let mut i = 0;
         while i < slice.len() {
             self.data[self.len] = slice[i];
@@ -433,3 +440,5 @@ pub fn valid_absolute_k(wire: &[u8], k: usize) -> bool {
     }
     false
 }
+
+impl<const CAP: usize> domain::base::wire::Composer for FixedBuf<CAP> {}
